@@ -22,7 +22,6 @@
 #include <cocls/suspend_point.h>
 
 namespace hz {
-void measure_begin(); unsigned long measure_end(); unsigned long measured_so_far();
 
 inline void upoint() { vrt::point(vrt::K_USER, nullptr); }
 inline void upoints(unsigned n) { for (unsigned i = 0; i < n; i++) upoint(); }
